@@ -282,10 +282,14 @@ OS_Create ==
     /\ pc.st = "Create"
     /\ LET o == obj[CurObj]
            n == ApplyOn(o, S, pc.orev, << [ id |-> S, uid |-> Snap.inc, ctrl |-> TRUE ] >>, uidc) IN
-       /\ obj' = [ obj EXCEPT ![CurObj] = n ]
-       /\ uidc' = IF o.exists THEN uidc ELSE uidc + 1
-       /\ pc' = AfterObject(pc, TRUE, n)
-       /\ W("os", "ApplyPatch", CurObj, o, n, "create")
+       IF NumControllers(n.owners) > 1
+         THEN \* somebody created the object with its own controller reference since the pass found it absent: the apply
+              \* would give it two controllers, the API server answers Invalid (apimachinery ValidateOwnerReferences)
+              /\ EndPass /\ UNCHANGED <<obj, uidc>> /\ W("os", "ApplyPatch", CurObj, o, o, "Invalid")
+         ELSE /\ obj' = [ obj EXCEPT ![CurObj] = n ]
+              /\ uidc' = IF o.exists THEN uidc ELSE uidc + 1
+              /\ pc' = AfterObject(pc, TRUE, n)
+              /\ W("os", "ApplyPatch", CurObj, o, n, "create")
     /\ UNCHANGED <<cr, dyn, budget>>
 
 \* Patch(Apply, force) carrying the owner list of the object as read, former controllers demoted
